@@ -121,11 +121,11 @@ func timeoutInputs(tier string, seed int64) []string {
 		add("5" + us + us)
 		add(strings.ToLower(us) + "5")
 	}
-	for _, v := range []string{"", "5", "12345678", "5s", "5h", "5U", "5N", "5d", "5ms", "5 S", "S5", "-", "+", "--5S", "5\x00S", "5\tS", "NaNS", "InfS", "1e2S", "٠S"} {
+	for _, v := range []string{"\x1e", "5", "12345678", "5s", "5h", "5U", "5N", "5d", "5ms", "5 S", "S5", "-", "+", "--5S", "5\x00S", "5\tS", "NaNS", "InfS", "1e2S", "٠S"} {
 		add(v)
 	}
 	// repeated headers (separator \x1f): last wins when all are valid
-	for _, v := range [][]string{{"5S", "7S"}, {"7S", "5S"}, {"1H", "1n"}, {"5S", "bogus"}, {"bogus", "5S"}, {"-1S", "3S"}, {"3S", "-1S"}} {
+	for _, v := range [][]string{{"5S", "7S"}, {"7S", "5S"}, {"1H", "1n"}, {"5S", "bogus"}, {"bogus", "5S"}, {"-1S", "3S"}, {"3S", "-1S"}, {"5S", "\x1e"}, {"\x1e", "5S"}, {"\x1e", "\x1e"}, {"S", "5S"}, {"5S", "S"}} {
 		add(strings.Join(v, "\x1f"))
 	}
 	nrand := 300
@@ -219,6 +219,9 @@ func famTimeout(w *World, c *Case, rng *rand.Rand) {
 		allValid := true
 		var valid []time.Duration
 		for _, p := range parts {
+			if p == "\x1e" {
+				p = ""
+			}
 			d, ok := specTimeout(p)
 			if ok {
 				valid = append(valid, d)
